@@ -367,7 +367,14 @@ func check(prop, tier string) int {
 			budgetMs = n * 1000
 		}
 	}
-	announce := scn.Race || scn.CrashIsViolation
+	announce := scn.Race || scn.CrashIsViolation || os.Getenv("VERIF_ANNOUNCE") != ""
+	only := -1
+	if v := os.Getenv("VERIF_ONLY"); v != "" {
+		// debugging aid: execute one run index only
+		if n, err := strconv.Atoi(v); err == nil {
+			only, procs = n, 1
+		}
+	}
 	results := make([]*workerResult, procs)
 	var wg sync.WaitGroup
 	for p := 0; p < procs; p++ {
@@ -375,6 +382,9 @@ func check(prop, tier string) int {
 		go func(p int) {
 			defer wg.Done()
 			job := &sim.Job{Mode: "run", Prop: prop, Tier: tier, Seed: seed, From: p, To: runs, Stride: procs, Known: known, BudgetMs: budgetMs, Announce: announce}
+			if only >= 0 {
+				job.From, job.To, job.Stride = only, only+1, 1
+			}
 			if scn.Race {
 				// the property quantifies over processor counts: the worker processes of one batch differ in GOMAXPROCS
 				// (the schedule itself is decided by the tape, whatever the count)
@@ -458,7 +468,7 @@ func check(prop, tier string) int {
 			}
 		case r.exit != 0 && r.exit != 1:
 			if infra == "" {
-				infra = fmt.Sprintf("worker %d exited with %d: %s", p, r.exit, excerpt(r.stderr, 2000))
+				infra = fmt.Sprintf("worker %d exited with %d (last run announced: %d): %s", p, r.exit, r.lastIdx, excerpt(r.stderr, 2000))
 			}
 		case !gotSummary:
 			if infra == "" {
